@@ -15,6 +15,7 @@ import DSV.Model.CommitFault
 import DSV.Model.Fs
 import DSV.Model.Path
 import DSV.Model.Read
+import DSV.Model.Append
 /-!
 Line-protocol driver: one request per line on stdin, one reply per line on stdout.
 First token selects the model function.  Imports only `DSV.Model.*` (core Lean), so it links natively.
@@ -898,6 +899,50 @@ def handleReadOutcome (args : List String) : String :=
       | _, _ => "bad-op"
   | _ => "bad-op"
 
+/-! #### append acceptance -/
+open DSV.Append in
+def parseFields (s : String) : Option Schema :=
+  if s = "-" then some [] else
+  (s.splitOn ",").mapM fun f =>
+    match f.splitOn ":" with
+    | [i, n, t, r] => match i.toNat? with
+        | some k => if r = "1" || r = "0" then some { id := k, name := n, ty := t, required := r = "1" } else none
+        | none => none
+    | _ => none
+
+open DSV.Append in
+def parseRecord (s : String) : Option Record :=
+  if s = "-" then some [] else
+  (s.splitOn ",").mapM fun f =>
+    match f.splitOn "=" with
+    | [k, c] => some (k, c)
+    | _ => none
+
+open DSV.Append in
+def handleAppend (cmd : String) (args : List String) : String :=
+  match cmd, args with
+  | "ap.fits", [ty, cls] => if (attrs ty cls).isNone then "bad-op" else if fits ty cls then "accept" else "reject"
+  | "ap.arrow", [ty, cls] => match arrow ty cls with | .exact => "exact" | .lossy => "lossy" | .reject => "reject"
+  | "ap.guard", [ty, cls] => match attrs ty cls with
+      | some a => if guardRefuses ty a then "refuse" else "pass"
+      | none => "bad-op"
+  | "ap.schema", [t, a] => match parseFields t, parseFields a with
+      | some ts, some as => if acceptsArg ts as then "accept" else "reject"
+      | _, _ => "bad-op"
+  | "ap.schemaold", [t, a] => match parseFields t, parseFields a with
+      | some ts, some as => if acceptsArgOld ts as then "accept" else "reject"
+      | _, _ => "bad-op"
+  | "ap.batch", [t, a, rs] =>
+      -- table schema, schema argument ("none" = omitted), records separated by ';'
+      match parseFields t, (if a = "none" then some none else (parseFields a).map some), (rs.splitOn ";").mapM parseRecord with
+      | some ts, some arg, some recs =>
+          match append { schema := ts, files := [] } arg recs with
+          | .ok t' => "accept " ++ toString (scanRows t').length
+          | .error .schemaMismatch => "reject schema"
+          | .error .badRecord => "reject record"
+      | _, _, _ => "bad-op"
+  | _, _ => "bad-op"
+
 def handle (line : String) : String :=
   match splitWs line with
   | [] => "bad-op"
@@ -914,6 +959,7 @@ def handle (line : String) : String :=
     else if cmd = "fs.judge" then handleFsJudge args
     else if cmd.startsWith "path." then handlePath cmd args
     else if cmd = "rd.outcome" then handleReadOutcome args
+    else if cmd.startsWith "ap." then handleAppend cmd args
     else if cmd.startsWith "gc." then handleGc cmd args
     else if cmd = "occ.trace" then handleOcc args
     else if cmd = "create.trace" then handleCreate args
